@@ -16,6 +16,8 @@ import io
 import posixpath
 import types
 
+from engine.api import sym_eq
+
 
 class Crash(BaseException):
     pass
@@ -29,6 +31,7 @@ class FS:
         self.ops = 0            # mutating operations performed since arm()
         self.crash_at = None
         self.torn = 0
+        self.torn_max = 16      # torn lengths explored: 0..torn_max, len//2, len-1 (and "everything")
         self.dead = False
         self.oplog = []         # kinds of the mutating operations performed (for evidence)
 
@@ -52,7 +55,7 @@ class FS:
         """Called immediately before an atomic mutating operation takes effect."""
         self.alive()
         if self.crash_at is not None:
-            if self.ops == self.crash_at:
+            if sym_eq(self.crash_at, self.ops):
                 self.dead = True
                 raise Crash()
             self.ops += 1
@@ -196,10 +199,16 @@ class _Writer:
         if fs.dead:
             raise Crash()
         data = b"".join(self.buf)
-        if fs.crash_at is not None and fs.ops == fs.crash_at:
+        if fs.crash_at is not None and sym_eq(fs.crash_at, fs.ops):
             # torn flush: only a prefix reaches the disk, then the process is gone
             if self.n in fs.files:
-                fs.files[self.n] = fs.files[self.n] + data[: fs.torn]
+                t = len(data)
+                cands = sorted(set([x for x in range(min(len(data), fs.torn_max + 1))] + [len(data) // 2, max(0, len(data) - 1)]))
+                for x in cands:      # explicit chain: one path per torn length; any other value = whole buffer reached the disk
+                    if sym_eq(fs.torn, x):
+                        t = x
+                        break
+                fs.files[self.n] = fs.files[self.n] + data[:t]
             fs.dead = True
             raise Crash()
         if fs.crash_at is not None:
